@@ -188,11 +188,14 @@ def prepare(text, separator=Separator(), unit='phone',
                        .replace(separator.word, '')\
                        .replace(separator.phone or ' ', ' ')
     else:  # syllable
+        # cut the utterance on the syllable separators first (it may
+        # contain spaces, as the phone separator), then delete the phone
+        # separators and the padding spaces inside each syllable
         def func(line):
-            return line.replace(separator.word, '')\
-                       .replace(' ', '')\
-                       .replace(separator.phone or '', '')\
-                       .replace(separator.syllable, ' ')
+            return ' '.join(
+                syllable.replace(separator.phone or '', '').replace(' ', '')
+                for syllable in line.replace(
+                    separator.word, '').split(separator.syllable))
 
     nremoved = 0
     for n, line in enumerate(text):
